@@ -217,13 +217,46 @@ func init() {
 				return w.viol("bulk.faulty-stream", "NewMapFromBatchData whose element provider failed at entry %d of %d returned no error (a map of %d entries)", failAt, len(stream), n)
 			}
 		}
+		// some values of the stream are replaced by freshly built child containers (what a deep copy delivers for
+		// nested values): keys and their order stay the source's
+		vals := make([]atree.Value, len(stream))
+		for j := range stream {
+			vals[j], _ = scalarValueOf(stream[j].v)
+		}
+		var kids []*MCont
+		replaced := map[int]MVal{} // position in the stream -> model value
+		for j := range st.Kids {
+			if len(stream) == 0 {
+				break
+			}
+			at := int((st.Pos + uint64(j)*7919) % uint64(len(stream)))
+			if _, dup := replaced[at]; dup {
+				continue
+			}
+			kv, km, err := w.materialize(&st.Kids[j], bulkOwner, nil)
+			if err != nil {
+				if err == errSkip {
+					continue
+				}
+				if vv, ok := err.(*Violation); ok {
+					return vv
+				}
+				return w.viol("bulk.error", "building a child for the stream failed: %v", err)
+			}
+			vals[at] = kv
+			replaced[at] = km
+			if ch := childOf(km); ch != nil {
+				kids = append(kids, ch)
+			}
+			w.Stats.Inc("bulk.child-in-map-stream")
+		}
 		i := 0
 		m, err := atree.NewMapFromBatchData(w.Storage, OwnerAddress(bulkOwner), w.digBuilder(c), *st.T, w.cmp, w.hip, sm.Seed(), func() (atree.Value, atree.Value, error) {
 			if i >= len(stream) {
 				return nil, nil, nil
 			}
 			k := w.valueOfKey(stream[i].k)
-			val, _ := scalarValueOf(stream[i].v)
+			val := vals[i]
 			i++
 			return k, val, nil
 		})
@@ -234,13 +267,26 @@ func init() {
 			return w.viol("bulk.seed", "batch-built map has seed %d, source %d", m.Seed(), sm.Seed())
 		}
 		// insertion order of the model = source insertion order restricted to the copied keys
+		byKey := map[string]MVal{}
+		for at, km := range replaced {
+			byKey[describe(stream[at].k)] = km
+		}
 		for j := range src.Keys {
 			if _, ok := scalarValueOf(src.Vals[j]); ok {
 				c.Keys = append(c.Keys, src.Keys[j])
-				c.Vals = append(c.Vals, src.Vals[j])
+				if km, ok := byKey[describe(src.Keys[j])]; ok {
+					c.Vals = append(c.Vals, km)
+				} else {
+					c.Vals = append(c.Vals, src.Vals[j])
+				}
 			}
 		}
 		w.newRootFromLib(st, m, c)
+		for _, ch := range kids {
+			// the build does not wire the handles it was given to the new parent: children are re-obtained through it
+			w.attach(c, ch)
+			w.dropHandles(ch)
+		}
 		w.Stats.Inc("bulk.map-built")
 		w.result("bulk.map %d", len(stream))
 		if st.End > 0 {
@@ -407,33 +453,7 @@ func init() {
 			st.End = uint64(g.R.Range(20, 150)) // burst of insertions right after the build
 		}
 		if kr := g.R.Sub("bulk-kids"); kr.Chance(0.35) {
-			// child containers in the stream, their sizes swept across the per-element inline limit
-			for k := kr.Range(1, 5); k > 0; k-- {
-				cs := &CSpec{CID: g.cid(), T: g.genType()}
-				width := []int{1, 2, 3, 5, 9}[kr.Intn(5)] // encoded bytes of one element
-				val := []uint64{7, 200, 60000, 1 << 20, 1 << 40}[map[int]int{1: 0, 2: 1, 3: 2, 5: 3, 9: 4}[width]]
-				n := []int{0, 1, kr.Range(2, 12), (limit-20)/width + kr.Intn(9) - 4, (limit-20)/width + kr.Intn(9) - 4, limit/width + kr.Range(1, 30)}[kr.Intn(6)]
-				if n < 0 {
-					n = 0
-				}
-				isMap := kr.Chance(0.3)
-				for e := 0; e < n; e++ {
-					if isMap {
-						if e >= len(g.keys) || e >= 40 {
-							break
-						}
-						cs.K = append(cs.K, g.keys[e])
-						cs.V = append(cs.V, VSpec{U: u64p(val + uint64(e%5))})
-					} else {
-						cs.E = append(cs.E, VSpec{U: u64p(val + uint64(e%5))})
-					}
-				}
-				if isMap {
-					st.Kids = append(st.Kids, VSpec{Map: cs})
-				} else {
-					st.Kids = append(st.Kids, VSpec{Arr: cs})
-				}
-			}
+			st.Kids = g.genBulkKids(kr, limit)
 		}
 		return st, true
 	}
@@ -450,6 +470,9 @@ func init() {
 		if g.R.Chance(0.3) {
 			st.Keep = true
 			st.Owner = g.P.Owners[g.R.Intn(len(g.P.Owners))]
+		}
+		if kr := g.R.Sub("bulk-kids"); kr.Chance(0.3) {
+			st.Kids = g.genBulkKids(kr, int(atree.MaxInlineMapElementSize())-10)
 		}
 		return st, true
 	}
@@ -664,4 +687,37 @@ func (w *World) faultyStreamBuild(st *Step, c *MCont, seed uint64, n int, at fun
 		return w.viol("bulk.faulty-stream", "a map built from a %s stream was accepted but is not structurally valid: %v", st.Sub, err)
 	}
 	return nil
+}
+
+// genBulkKids: child containers for the element stream of a batch build, their sizes swept across the per-element
+// inline limit.
+func (g *Gen) genBulkKids(kr *Rng, limit int) []VSpec {
+	var out []VSpec
+	for k := kr.Range(1, 5); k > 0; k-- {
+		cs := &CSpec{CID: g.cid(), T: g.genType()}
+		width := []int{1, 2, 3, 5, 9}[kr.Intn(5)] // encoded bytes of one element
+		val := []uint64{7, 200, 60000, 1 << 20, 1 << 40}[map[int]int{1: 0, 2: 1, 3: 2, 5: 3, 9: 4}[width]]
+		n := []int{0, 1, kr.Range(2, 12), (limit-20)/width + kr.Intn(9) - 4, (limit-20)/width + kr.Intn(9) - 4, limit/width + kr.Range(1, 30)}[kr.Intn(6)]
+		if n < 0 {
+			n = 0
+		}
+		isMap := kr.Chance(0.3)
+		for e := 0; e < n; e++ {
+			if isMap {
+				if e >= len(g.keys) || e >= 40 {
+					break
+				}
+				cs.K = append(cs.K, g.keys[e])
+				cs.V = append(cs.V, VSpec{U: u64p(val + uint64(e%5))})
+			} else {
+				cs.E = append(cs.E, VSpec{U: u64p(val + uint64(e%5))})
+			}
+		}
+		if isMap {
+			out = append(out, VSpec{Map: cs})
+		} else {
+			out = append(out, VSpec{Arr: cs})
+		}
+	}
+	return out
 }
